@@ -601,7 +601,101 @@ class VhdxChainStream(Suite):
                 "partial_blocks": sum(1 for l in case["chain"]["layers"] for stt, _ in l["blocks"] if stt == 7)}
 
 
+# ----------------------------------------------------------------------------- multi-extent VMDKs (and split snapshots) as streams
+class VmdkSplitStream(Suite):
+    """Histories on a VMDK assembled from a descriptor with several extents (flat, VMFS, hosted / COWD / SE sparse; C10's
+    generator), a third of them split snapshot disks over a parent.  The array is the concatenation of the extents as the
+    Coq specification of C10 gives it (xspec_plan over the intended extents, materialised with the generator's files)."""
+    shard = 4
+    per_case_timeout = 90.0
+
+    def __init__(self, bufsize):
+        from harness.props import c10
+        self.c10 = c10
+        self.bufsize = bufsize
+        self.name = f"vmdksplit_{bufsize}"
+        self.env = {"DISSECT_STREAM_BUFFER_SIZE": bufsize}
+        # (the case analysis lives in a preamble function: a `match` under six let-bound file records makes Coq's
+        # elaboration of the case term exponential)
+        self.preamble = (c10.MultiSuite.preamble + "From DH Require Import Model.AlignedStream.\n"
+                         "Definition split_case (hp : bool) (files : list (str * vfile)) (text : str) "
+                         "(intent : list (Z * vfile * Z * Z)) (size align : Z) (ops : list sop) :=\n"
+                         "  match assemble_p files text, all_ok (map (intent_x hp) intent) with\n"
+                         "  | Ok v, Ok xs => (run_outs size align (blen_plan (fun off len => match vmdk_read v off len with "
+                         "Ok p => Ok (plan_of_x p) | Err => Err | Fuel => Fuel end)) ops, spec_run size 0 ops, "
+                         "xspec_plan (v_disks (mk_vmdk xs)) 0 (size / 512))\n"
+                         "  | _, _ => (Err, [], []) end.\n")
+
+    def generate(self, rng, tier):
+        n = 30 if tier == "thorough" else 5
+        out, tries = [], 0
+        while len(out) < n and tries < 4000:
+            tries += 1
+            c = self.c10.gen_multi(rng, "quick")
+            total = sum(e["sectors"] for e in c["extents"])
+            if c["mode"] != "descriptor" or len(c["extents"]) < 2 or total * 512 > 2 * (1 << 20):
+                continue
+            if len(out) % 2 == 0 and not c.get("parent"):
+                continue                                     # every other case is a split snapshot over a parent
+            c.pop("reqs", None)
+            size = total * 512
+            out.append({"img": c, "size": size, "bufsize": self.bufsize,
+                        "ops": gen_ops(rng, size, self.bufsize, rng.randint(3, 25))})
+        return out
+
+    def impl(self, case):
+        import shutil
+        from pathlib import Path
+
+        import dissect.util.stream as st
+        from dissect.hypervisor.disk.vmdk import VMDK
+        if st.STREAM_BUFFER_SIZE != case["bufsize"]:
+            return {"outcome": "crash", "detail": f"buffer size not applied: {st.STREAM_BUFFER_SIZE}"}
+        d = os.path.join(self.c10.SCRATCH, f"s{os.getpid()}")
+        shutil.rmtree(d, ignore_errors=True)
+        os.makedirs(d)
+        try:
+            v = VMDK(Path(self.c10.write_case_dir(case["img"], d)))
+            if int(v.size) != case["size"]:
+                return {"outcome": "crash", "detail": f"size {int(v.size)} != {case['size']}"}
+            r = run_ops(v, case["ops"])
+            for x in v.disks:
+                try:
+                    x.fh.close()
+                except Exception:  # noqa: BLE001
+                    pass
+            return r
+        finally:
+            shutil.rmtree(d, ignore_errors=True)
+
+    def coq_term(self, case):
+        img, size, align = case["img"], case["size"], case["bufsize"]
+        lets, files, intent = self.c10.files_and_intent_terms(img)
+        hp = "true" if img.get("parent") else "false"
+        ops = coq_ops(case["ops"])
+        return f"{lets}split_case {hp} [{files}] {self.c10.cps(img['text'])} [{intent}] {size} {align} {ops}"
+
+    def judge(self, case, impl_res, coq_val):
+        if isinstance(impl_res, dict):
+            return [Finding("impl_fault", f"implementation {impl_res}", "vmdk:split-stream:" + str(impl_res.get("outcome")))]
+        _, model_v, spec_v, whole = coq_val
+        img = case["img"]
+        files = [self.c10.extent_file(e) for e in img["extents"]]
+        disk = self.c10.mat_with(img, files)(whole)
+        if len(disk) != case["size"]:
+            return [Finding("coq_error", f"the specification plan of the whole disk yields {len(disk)} bytes, size {case['size']}")]
+        return compare_history(case["ops"], impl_res, model_v, spec_v, lambda s0, l: disk[s0:s0 + l], "vmdk-split")
+
+    def nontrivial(self, case, impl_res, coq_val):
+        return core.sha(core.jdump(case).encode()) if history_nontrivial(case["ops"], 512) else None
+
+    def dist(self, case):
+        return {"bufsize": case["bufsize"], "extents": len(case["img"]["extents"]), "parent": bool(case["img"].get("parent"))}
+
+
 SUITES = {"synth": SynthSuite()}
+for _b in (512, 8192, 131072):
+    SUITES[f"vmdksplit_{_b}"] = VmdkSplitStream(_b)
 for _f in ("qcow2", "vmdk"):
     for _b in (512, 8192, 131072):
         SUITES[f"{_f}_{_b}"] = Qcow2VmdkStreamSuite(_f, _b)
